@@ -433,7 +433,7 @@ func main() {
 					continue // 1-deviation strings: all receivers through SetBytes, two receivers elsewhere
 				}
 				R.T(1)
-				if m := runDecode(b, e, rk); m != "" {
+				if m := mc.Safe(func() string { return runDecode(b, e, rk) }); m != "" {
 					R.Mismatch("decode/"+entries[e]+"/"+cls, "dec", m, mc.D{"bytes": mc.Hex(b), "entry": e, "entry_name": entries[e], "recv": rk, "recv_kind": recvKinds[rk], "class": cls})
 				}
 			}
@@ -496,7 +496,7 @@ func main() {
 			} else {
 				R.Class("coords/reject", 1)
 			}
-			if m := runCoords(coords[i], coords[j]); m != "" {
+			if m := mc.Safe(func() string { return runCoords(coords[i], coords[j]) }); m != "" {
 				R.Mismatch("NewPointFromCoords", "coords", m, mc.D{"x": mc.Hex(coords[i]), "y": mc.Hex(coords[j])})
 			}
 		}
@@ -547,7 +547,7 @@ func main() {
 			default:
 				R.Class("recover/reject not an x-coordinate", 1)
 			}
-			if m := runRecover(rs[i], id); m != "" {
+			if m := mc.Safe(func() string { return runRecover(rs[i], id) }); m != "" {
 				R.Mismatch(fmt.Sprintf("RecoverPoint/id&3=%d/id>3=%v", id&3, id > 3), "recover", m, mc.D{"r": mc.HexBig(rs[i]), "id": id})
 			}
 		}
